@@ -9,7 +9,7 @@ on abstract documents up to the property columns handed to `write_arrays`; tied 
 real conversion, read-back).  lxml's streaming cursor logic is exercised there, **not** modelled:
 the property is decided for the graph / feature / filter logic (partial for XML parsing).
 
-`WF d` (GeffProofs/TrackMate2) = TrackMate's own invariants: every spot converts and has a unique ID,
+`WF d` (GeffModel/TrackMateSpec.lean; executable check `wfB`, `wfB_sound`) = TrackMate's own invariants: every spot converts and has a unique ID,
 ROI on all spots or none, every track has a TRACK_ID, edges convert, join existing spots, are
 pairwise distinct, and a spot is touched by edges of one track id only. -/
 namespace GeffProps.C16
@@ -237,17 +237,6 @@ theorem C16_units (d : Doc) (h : WF d) (ds dt : Bool) (out : Out) (hc : convert 
   exact ⟨h5, h6⟩
 
 
-theorem aget_some_mem (a : Attrs) (k : String) (v : Val) (h : aget? a k = some v) : (k, v) ∈ a := by
-  unfold aget? at h
-  cases hf : a.find? (fun kv => kv.1 == k) with
-  | none => rw [hf] at h; cases h
-  | some x =>
-    rw [hf] at h
-    simp only [Option.map_some, Option.some.injEq] at h
-    have hm := List.mem_of_find?_eq_some hf
-    have hk : x.1 = k := by simpa using List.find?_some hf
-    rw [← hk, ← h]; exact hm
-
 /-- every value stored under a declared feature name `k` (other than the two names the converter adds)
 is the `isint`-typed text of some spot -/
 theorem column_values_typed (d : Doc) (h : WF d) (ds dt : Bool) (k : String) (f : Feat)
@@ -275,17 +264,6 @@ theorem column_values_typed (d : Doc) (h : WF d) (ds dt : Bool) (k : String) (f 
   rw [this] at hc
   obtain ⟨t, _, hconv⟩ := convertAttributes_mem' ha (aget_some_mem a k v hc)
   exact ⟨t, convertOne_declared hf hconv⟩
-
-theorem columnKind_int (cells : List (Option Val)) (hne : (cells.filterMap id).isEmpty = false)
-    (hall : (cells.filterMap id).all isI = true) : columnKind cells = .int64 := by
-  unfold columnKind
-  simp only [hne, hall, Bool.false_eq_true, if_false, if_true]
-
-theorem columnKind_float (cells : List (Option Val)) (hne : (cells.filterMap id).isEmpty = false)
-    (hnotI : (cells.filterMap id).all isI = false) (hnum : (cells.filterMap id).all isNum = true) :
-    columnKind cells = .float64 := by
-  unfold columnKind
-  simp only [hne, hnotI, hnum, Bool.false_eq_true, if_false, if_true]
 
 /-- **C16 (feature dtype)**: a stored spot feature declared `isint="true"` is an `int64` column; one
 declared `isint="false"` is a `float64` column unless some text is not a number (then TrackMate's
@@ -446,9 +424,6 @@ theorem mem_labelled (d : Doc) (ds dt : Bool) (u : Nat) (l : Val) :
   constructor
   · rintro ⟨n, ⟨hn, hk⟩, t, ht, rfl, rfl⟩; exact ⟨hn, hk, ht⟩
   · rintro ⟨hn, hk, ht⟩; exact ⟨u, ⟨hn, hk⟩, l, ht, rfl, rfl⟩
-
-theorem touches_iff (e : Edge) (n : Nat) : touches e n = true ↔ e.s = n ∨ e.t = n := by
-  simp [touches]
 
 /-- a kept node of track `l` ⇒ every endpoint of every link of track `l` is kept -/
 theorem keep_whole_track (d : Doc) (h : WF d) (ds dt : Bool) (u : Nat) (l : Val)
